@@ -249,7 +249,37 @@ def rw_object_spelling(rng, spec, root, ref):
     return spec, root, ident(ref), 'parameter-object definitions respelled (ignored verbose, default-valued b, kwargs order)'
 
 
-REWRITINGS = {'objects': rw_object_spelling, 'rename': rw_rename, 'wrap': rw_wrap, 'permute': rw_permute, 'module': rw_module, 'to_context': rw_move_to_context, 'global_vars': rw_global_vars}
+def rw_share(rng, spec, root, ref):
+    """equal sub-values of one parameter value written once and referenced (YAML anchor / alias): after loading they are ONE object"""
+    spec = copy.deepcopy(spec)
+    import json
+
+    def is_cont(x):
+        return isinstance(x, (list, dict)) and len(x) > 0 and not (isinstance(x, dict) and 'class' in x)
+    n = 0
+    for fname, f in spec['files'].items():
+        if not fname.endswith(('.yaml', '.yml')):
+            continue
+        for pd in f['parts'].values():
+            for key, v in pd.get('values', {}).items():
+                if not isinstance(v, (list, dict)) or (isinstance(v, dict) and 'class' in v):
+                    continue
+                children = list(v.items()) if isinstance(v, dict) else list(enumerate(v))
+                seen = {}
+                for k_, c_ in children:
+                    if is_cont(c_):
+                        sig = json.dumps(c_, sort_keys=False)
+                        if sig in seen and type(seen[sig]) is type(c_):
+                            v[k_] = seen[sig]
+                            n += 1
+                        else:
+                            seen[sig] = c_
+    if not n:
+        return None
+    return spec, root, ident(ref), f'{n} equal sub-values written once and referenced by a YAML alias'
+
+
+REWRITINGS = {'share': rw_share, 'objects': rw_object_spelling, 'rename': rw_rename, 'wrap': rw_wrap, 'permute': rw_permute, 'module': rw_module, 'to_context': rw_move_to_context, 'global_vars': rw_global_vars}
 
 
 def compose(rng, spec, root, kinds, permute_inside_objects=True):
@@ -260,7 +290,7 @@ def compose(rng, spec, root, kinds, permute_inside_objects=True):
     name_map = ident(ref)
     descs = []
     applied = []
-    for k in kinds:
+    for k in sorted(kinds, key=lambda k_: k_ == 'share'):        # (sharing last: the other rewritings rebuild the values)
         fn = REWRITINGS[k]
         out = fn(rng, spec, root, ref) if k != 'permute' else rw_permute(rng, spec, root, ref, permute_inside_objects)
         if out is None:
